@@ -169,6 +169,22 @@ def exhaustive_defs(tier):
             for values in itertools.product(pool, repeat=n):
                 for t in (False, True):
                     out.append((mk_def(w, "int", list(values), t), "dsl", ("exh", w, n)))
+    # as many (or more) variants as bit patterns, yet a pattern without variant: two variants share a number under
+    # DIFFERENT cfgs (the duplicate test is per cfg) — coverage is about the numbers, not about how many variants there
+    # are (seed C15: `seen_values.len() > highest_value`)
+    for w in (1, 2, 3):
+        npat = 2 ** w
+        for extra in (0, 1):
+            for dup_at in range(1, npat + extra):
+                for cfgs2 in (("xfeat", "yfeat"), (None, "xfeat"), ("xfeat", None)):
+                    values = list(range(npat + extra))
+                    values[dup_at] = values[dup_at - 1]            # the last pattern(s) lose their variant
+                    for k in range(dup_at + 1, npat + extra):
+                        values[k] = values[k] - 1
+                    cf = [None] * len(values)
+                    cf[dup_at - 1], cf[dup_at] = cfgs2
+                    for t in (False, True):
+                        out.append((mk_def(w, "uint", values, t, cf), "dsl", ("exh", w, len(values))))
     # bool fields: only lists with a negative number (a bool field with an enum the pass accepts is rejected by a LATER
     # pass, bool_fields_checked, which this model does not contain)
     for n in range(1, 4):
@@ -243,6 +259,8 @@ def random_def(rng):
     # the analysis does not depend on who can read or write the field (seed C15-7 called an enum on a write-only field
     # infallible "because it is never read"): the field's own access, the register's, and the global defaults vary freely
     d["objects"][0]["fields"][0]["access"] = rng.choice([None, None, "RW", "RO", "WO", "WO"])
+    if rng.random() < 0.2:
+        d["objects"][0]["fields"][0]["doc"] = "some text"      # (manifest: a `description` key inside the enum map)
     d["objects"][0]["access"] = rng.choice([None, None, "RW", "RO", "WO"])
     if rng.random() < 0.2:
         d["config"]["default_field_access"] = rng.choice(["RW", "RO", "WO"])
@@ -374,6 +392,14 @@ def run(ctx):
         items.append((mk_def(w, "uint", [1, None], True, size=136), "dsl", ("wide", w, 2)))
     # the D12 witness itself, always
     items.append((mk_def(2, "uint", [1, 1], True), "dsl", ("d12", 2, 2)))
+    # the empty enum in every syntax, with and without a description on the field (in a manifest the enum map then has a
+    # `description` key next to `name` — a key that is not a variant; seed C15-8), try and non-try
+    for syn in ("dsl", "json", "yaml", "toml"):
+        for doc in (None, "The mode"):
+            for t in (False, True):
+                d0 = mk_def(2, "uint", [], t)
+                d0["objects"][0]["fields"][0]["doc"] = doc
+                items.append((d0, syn, ("empty", 2, 0)))
     # the D16 / D17 witnesses and their accepted neighbours, always (all four syntaxes)
     for syn in ("dsl", "json", "yaml", "toml"):
         items.append((mk_def(8, "uint", [-1, "default"], False), syn, ("d16", 8, 2)))
